@@ -1,4 +1,5 @@
 import PGT.Proofs.FromFlat
+import PGT.Proofs.FromUniform
 /-
 C05 – Null and unknown Terraform values reset the target to zero or nil.
 Full statement: `C05_full`. Proved: the scalar template for all attribute values and all prior structs
@@ -66,5 +67,89 @@ theorem C05_other_fields_untouched (ov : List (String × String)) (f : Field) (k
       · injection h with h; subst h; exact key _
     · injection h with h; subst h; rfl
   · injection h with h; subst h; rfl
+
+-- ====================================================================================================
+-- every field kind, every Terraform value, every prior content of the target
+
+/-- **C05 "whatever the target struct held before the call", for every Terraform value.** For a message whose own
+fields are neither oneof branches nor children of a nullable embedded message (nested messages may be anything): the
+call is the application of one list of field assignments `ws` – determined by the Terraform value alone – to the prior
+content; diagnostics and hook calls do not depend on the prior content either. Holds for conforming and for malformed
+objects alike. (`copyFrom_uniform`, `PGT/Proofs/FromUniform.lean`.) -/
+theorem C05_uniform (ov : List (String × String)) (m : Msg) (tf : TfVal)
+    (hpl : ∀ f ∈ m.fields, f.info.oneOfName = "" ∧ f.info.parentIsOptionalEmbed = false) :
+    (∃ ws d h, (∀ w ∈ ws, w.1 ∈ m.info.oneOfNames ++ m.fields.map (·.info.name)) ∧
+        ∀ p, copyFrom ov m tf (.struct p) = .ok { obj := applyWrites ws (.struct p), diags := d, hooks := h }) ∨
+    (∃ msg, ∀ p, copyFrom ov m tf (.struct p) = .stuck msg) ∨ (∃ msg, ∀ p, copyFrom ov m tf (.struct p) = .panic msg) :=
+  copyFrom_uniform ov m tf hpl
+
+/-- fields not described by the schema (excluded fields, any other Go field) are left untouched -/
+theorem C05_excluded_untouched (ov : List (String × String)) (m : Msg) (tf : TfVal)
+    (hpl : ∀ f ∈ m.fields, f.info.oneOfName = "" ∧ f.info.parentIsOptionalEmbed = false)
+    (p : List (String × GoVal)) (r : FromResult) (h : copyFrom ov m tf (.struct p) = .ok r)
+    (name : String) (hn : name ∉ m.info.oneOfNames ++ m.fields.map (·.info.name)) :
+    r.obj.field? name = (GoVal.struct p).field? name := by
+  rcases copyFrom_uniform ov m tf hpl with ⟨ws, d, hh, hin, hrun⟩ | ⟨msg, hrun⟩ | ⟨msg, hrun⟩
+  · rw [hrun p] at h
+    injection h with h
+    subst h
+    apply applyWrites_other
+    intro hmem
+    obtain ⟨w, hw, rfl⟩ := List.mem_map.mp hmem
+    exact hn (hin w hw)
+  · rw [hrun p] at h; cases h
+  · rw [hrun p] at h; cases h
+
+/-- two calls with the same Terraform value and different prior contents: same diagnostics, and every field that the
+call assigns holds the same value afterwards; every other field keeps what its own target held -/
+theorem C05_prior_independent (ov : List (String × String)) (m : Msg) (tf : TfVal)
+    (hpl : ∀ f ∈ m.fields, f.info.oneOfName = "" ∧ f.info.parentIsOptionalEmbed = false)
+    (p p' : List (String × GoVal)) (r : FromResult) (h : copyFrom ov m tf (.struct p) = .ok r) :
+    ∃ (r' : FromResult) (written : List String), copyFrom ov m tf (.struct p') = .ok r' ∧ r'.diags = r.diags ∧ r'.hooks = r.hooks ∧
+      (∀ name ∈ written, r'.obj.field? name = r.obj.field? name) ∧
+      (∀ name, name ∉ written → r.obj.field? name = (GoVal.struct p).field? name ∧
+                                r'.obj.field? name = (GoVal.struct p').field? name) := by
+  rcases copyFrom_uniform ov m tf hpl with ⟨ws, d, hh, _, hrun⟩ | ⟨msg, hrun⟩ | ⟨msg, hrun⟩
+  · rw [hrun p] at h
+    injection h with h
+    subst h
+    refine ⟨_, ws.map (·.1), hrun p', rfl, rfl, ?_, ?_⟩
+    · intro name hname
+      exact applyWrites_same ws _ _ name trivial trivial hname
+    · intro name hname
+      exact ⟨applyWrites_other ws _ name hname, applyWrites_other ws _ name hname⟩
+  · rw [hrun p] at h; cases h
+  · rw [hrun p] at h; cases h
+
+/-- **null / unknown ⇒ zero, every kind.** A null or unknown attribute of the right Go type resets the field – scalar,
+pointer scalar, nested message, list, map – to its zero value (nil for pointers, empty for slices and maps), whatever
+payload the value carries and whatever the target held; the block is the same function at every nesting depth. -/
+theorem C05_null_resets (rec : FromRec) (ov : List (String × String)) (info : FieldInfo) (mv : Option FieldInfo)
+    (msg : Option MsgInfo) (attrs : Option (List (String × TfVal))) (st : FromSt) (a : TfVal)
+    (ho : info.oneOfName = "") (he : info.parentIsOptionalEmbed = false) (hc : info.kind ≠ .custom)
+    (hl : (attrs.getD []).lookup info.nameSnake = some a)
+    (hkind : a.vkind = vkindOf info.tf.valueType ∧ a.vkind ≠ .unknown)
+    (hshape : match info.kind with
+      | .primitive => ∃ k, a.vkind = .prim k
+      | .object => a.vkind = .obj
+      | .primitiveList | .objectList => a.vkind = .list
+      | .primitiveMap | .objectMap => a.vkind = .map
+      | .custom => False)
+    (hnull : a.isKnown = false) :
+    copyFromFieldWith rec ov info mv msg attrs st = .ok { st with obj := st.obj.setField info.name (zeroWrite info) } :=
+  fieldWith_null_resets rec ov info mv msg attrs st a ho he hc hl hkind hshape hnull
+
+/-- non-vacuity: a null list that carries two elements (the former finding F4) resets the field to the empty slice -/
+theorem C05_null_resets_example :
+    (match copyFrom [] { info := { name := "M" }, fields :=
+        [{ info := { name := "L", nameSnake := "l", kind := .primitiveList, isRepeated := true, protoType := "string",
+                     tf := { valueType := "github.com/hashicorp/terraform-plugin-framework/types.List",
+                             elemValueType := "github.com/hashicorp/terraform-plugin-framework/types.String",
+                             valueCastToType := "string", valueCastFromType := "string", zeroValue := "\"\"" } } }] }
+      (.obj false false (some [("l", .list false true (some [.prim .string false false (.str [97]), .prim .string false false (.str [98])]) none)]) none)
+      (.struct [("L", .slice (some [.sc (.str [120])]))]) with
+     | .ok r => r.diags.isEmpty && (match r.obj.field? "L" with | some (.slice (some [])) => true | _ => false)
+     | _ => false) = true := by
+  decide
 
 end PGT.Props.C05
